@@ -76,6 +76,25 @@ def eval_case(case):
             bad('rt:independent-reader', 'independent reader failed: %r' % (e,))
         if ind is not None and ind != data:
             bad('rt:independent-reader', 'independent reader recovers %s from dump of %s' % (ind.hex(), data.hex()))
+    elif k == 'addr':
+        from io_drawer.dump import HEX_DUMP_LINE_FORMATS
+        from pel.hexdump import DEFAULT_LINE_FORMAT
+        data = bytes(range(0x41, 0x51))
+        if case['fmt'] == 'default':
+            addr = ['1'] * 8
+            addr[case['pos']] = case['digit']
+            line = hexdump(memoryview(data))[0]
+            lines = [''.join(addr) + line[8:]]
+            back = bytes(parse(lines))
+        else:
+            fmt = HEX_DUMP_LINE_FORMATS[0]
+            addr = ['1'] * 4
+            addr[case['pos']] = case['digit']
+            line = rhex.render(data, fmt)[0]
+            lines = [''.join(addr) + line[4:]]
+            back = bytes(parse(lines, fmt))
+        if back != data:
+            bad('addr:parse', 'a dump line whose address is %r parses to %d of 16 bytes (%s format)' % (''.join(addr), len(back), case['fmt']))
     elif k == 'layout':
         bpl, bpc, n = case['bpl'], case['bpc'], case['n']
         data = bytes((i * 5 + 1) & 0xff for i in range(n))
@@ -190,6 +209,15 @@ def run_chunk(chunk):
         res.add(vs)
 
     if k == 'rt_len':
+        # longer dumps: offsets whose digits include A-F (0xA0 and up), around 4 KiB and 64 KiB
+        for n in (159, 160, 161, 176, 255, 256, 257, 4095, 4097, 0xABC, 0xFFF1, 0x10001):
+            do({'k': 'rt', 'data': bytes((i * 7 + n) & 0xff for i in range(n)).hex()}, True)
+        # every hex digit, either case, in every position of the address column of each format that has one
+        for d in '0123456789abcdefABCDEF':
+            for pos in range(8):
+                do({'k': 'addr', 'fmt': 'default', 'digit': d, 'pos': pos}, True)
+            for pos in range(4):
+                do({'k': 'addr', 'fmt': 'bmc', 'digit': d, 'pos': pos}, True)
         for n in range(0, 81):
             for name, data in _patterns(n):
                 do({'k': 'rt', 'data': data.hex()}, n > 0)
@@ -213,6 +241,10 @@ def run_chunk(chunk):
                     do({'k': 'layout', 'bpl': bpl, 'bpc': bpc, 'n': n}, n > 0)
     elif k == 'io':
         f = chunk['fmt']
+        for n in (159, 161, 255, 257, 4097, 0xABC1):
+            data = bytes((i * 11 + n) & 0xff for i in range(n))
+            for pad in (True, False):
+                do({'k': 'io', 'fmt': f, 'data': data.hex(), 'pad': pad, 'upper': bool(n % 2)}, True)
         for n in range(0, 41):
             for pi, (name, data) in enumerate(_patterns(n)):
                 if pi in (1, 2) and n % 5:
